@@ -82,6 +82,19 @@ def schedule(draw: Any, *, max_callers: int = 8, faults: bool = True, big_queue:
     if nf:
         case["foreign"] = [{"t": draw(st.sampled_from(CALL_TIMES)) + draw(st.sampled_from(DELAYS)), "of": draw(st.integers(0, n - 1)),
                             "kind": draw(st.sampled_from(NEAR_KINDS)), "hops": draw(st.integers(0, 2))} for _ in range(nf)]
+    if draw(st.booleans()):  # near misses aimed at a caller's in-flight window (relative to one of its writes)
+        from vf.env.thinfsm import near_miss
+
+        sc = []
+        for _ in range(draw(st.integers(1, 3))):
+            i = draw(st.integers(0, n - 1))
+            kind = draw(st.sampled_from(NEAR_KINDS))
+            fr = near_miss(CMDS[callers[i]["cmd"]], case["gwy_id"], kind)
+            if fr:
+                sc.append({"caller": i, "attempt": draw(st.integers(1, 2)), "d": draw(st.sampled_from((0.002, 0.02, 0.05, 0.2, 0.499, 0.5))),
+                           "hops": draw(st.integers(0, 2)), "frame": fr, "labels": ["foreign:" + kind], "auto_label": True})
+        if sc:
+            case["script"] = sc
     if faults and draw(st.integers(0, 2)) == 0:
         fl = []
         for _ in range(draw(st.integers(1, 3))):
@@ -121,7 +134,7 @@ def classify(case: dict) -> list[str]:
         out.append("sched:9+callers")
     if len({c["prio"] for c in case["callers"]}) >= 2:
         out.append("sched:2+priorities")
-    if case.get("foreign"):
+    if case.get("foreign") or case.get("script"):
         out.append("sched:foreign")
     if any(a.get("dup") for f in fates.values() for a in (f.get("echo"), f.get("reply")) if a):
         out.append("sched:duplicate")
